@@ -18,7 +18,7 @@ fn registered(t: &str, op: &str) -> bool {
 fn label(t: &str, i: usize, salt: u64) -> ItemSpec {
     let k = (i as i32 + 1) * 10 + (salt % 7) as i32;
     match t {
-        "BOOLEAN" => ItemSpec::Bool(((salt >> i) & 1) == 1),
+        "BOOLEAN" => ItemSpec::Bool(((salt >> (i % 64)) & 1) == 1),
         "INTEGER" => ItemSpec::Int(k * 100),
         "FLOAT" => ItemSpec::Float(k as f32 + 0.25),
         "NAME" => ItemSpec::Name(format!("n{}", k)),
@@ -34,7 +34,7 @@ fn label(t: &str, i: usize, salt: u64) -> ItemSpec {
                 ItemSpec::Name(format!("c{}", k))
             }
         }
-        "BOOLVECTOR" => ItemSpec::BVec((0..=i).map(|j| ((salt >> j) & 1) == 1).collect()),
+        "BOOLVECTOR" => ItemSpec::BVec((0..=(i % 9)).map(|j| ((salt >> ((i + j) % 64)) & 1) == 1).collect()),
         "INTVECTOR" => ItemSpec::IVec(vec![k; (i % 3) + 1]),
         "FLOATVECTOR" => ItemSpec::FVec(vec![k as f32 + 0.5; (i % 2) + 1]),
         _ => unreachable!(),
@@ -114,7 +114,9 @@ fn grid(ctx: &Ctx, draws: u64) -> SubReport {
             if !registered(t, op) {
                 continue;
             }
-            for depth in 0..=8usize {
+            // depths 0..8 exhaustively; plus deep stacks around 1000 items (the generic container
+            // is documented without a capacity) with fewer value variations
+            for depth in (0..=8usize).chain([999usize, 1000, 1001, 1030]) {
                 if matches!(*op, "YANK" | "YANKDUP" | "SHOVE") {
                     let d = depth as i32;
                     let mut idx = vec![i32::MIN, -d - 1, -1, 0, 1, d - 2, d - 1, d, d + 1, i32::MAX, 3];
@@ -133,6 +135,7 @@ fn grid(ctx: &Ctx, draws: u64) -> SubReport {
     let n = cases.len() as u64;
     let mut rep = par_map(ctx, "grid", n, |ci, rep| {
         let (t, op, depth, idx) = cases[ci as usize].clone();
+        let draws = if depth > 8 { 1 } else { draws };
         for salt in 0..draws {
             let salt = salt.wrapping_mul(0x9E3779B97F4A7C15).wrapping_add(ctx.seed).wrapping_add(ci * 31);
             let mut s = StateSpec::default();
